@@ -105,7 +105,7 @@ def h1_phonon_objects(chk, rng):
             # the results of the object: all its (lazy) properties that evaluate on the duck calculator, the cached intermediates included
             for n in cached_names(cls):
                 try:
-                    X.run_single_path(lambda: scenario([n]), name="C14:H1:probe")
+                    X.run_single_path(lambda: scenario([n]), name="C14:H1:probe", generic=True)
                     names.append(n)
                 except SymError:
                     raise
@@ -113,7 +113,7 @@ def h1_phonon_objects(chk, rng):
                     pass
             orders = h1_orders(names, rng)
             for order in orders:
-                first, second = X.run_single_path(lambda: scenario(order), name="C14:H1")
+                first, second = X.run_single_path(lambda: scenario(order), name="C14:H1", generic=True)
                 observed.append(first)
                 for n in order:
                     if not arrays_equal(first[n], second[n], "C14:H1:twice"):
@@ -185,7 +185,7 @@ def h2_task_list(chk, rng):
                 out.append((kind, {"c%d%d" % k.v: numpy.array(v, dtype=object).copy() for k, v in get[kind]().items()}))
             return out
     try:
-        runs = {fk: X.run_single_path(lambda: scenario(fk), name="C14:H2") for fk in ("iso", "adi")}
+        runs = {fk: X.run_single_path(lambda: scenario(fk), name="C14:H2", generic=True) for fk in ("iso", "adi")}
         ref = {kind: res for kind, res in runs["iso"][:2]}
         for fk, seq in runs.items():
             for kind, res in seq:
@@ -287,7 +287,7 @@ def h3_h4_interfaces(chk, rng, tier):
                     calc.write_output()
                     writes.append(list(sink))
                 return r1, r2, writes
-        r1, r2, writes = X.run_single_path(scenario, name="C14:H3")
+        r1, r2, writes = X.run_single_path(scenario, name="C14:H3", generic=True)
     except SymError as e:
         chk.inconclusive("H3/H4", str(e))
         return
